@@ -360,6 +360,8 @@ class Interp:
             v = self.load(st, frame, rv[1])
             if isinstance(v, Unknown):
                 v = self.materialize(st, v); self.store(st, frame, rv[1], v)
+            if isinstance(v, Obj) and v.kind == 'error' and getattr(self, 'error_variants', None) and v.d.get('ekind') in self.error_variants:
+                return z3.BitVecVal(self.error_variants.index(v.d['ekind']), 64)       # modelled error value: variant order read from the current source
             if not isinstance(v, Adt): raise Stuck(f'discriminant of {v!r}')
             if v.discr is None:
                 v.discr = z3.BitVec(fresh_name('d'), 64)
@@ -712,6 +714,7 @@ class Interp:
         if fr.idx == 0:
             # loop bound: a block entered this often within one activation means a loop the models cannot terminate (e.g. an unmodelled iterator)
             vis = fr.__dict__.setdefault('visits', {}); n = vis.get(fr.block, 0) + 1; vis[fr.block] = n
+            if n > self.stats.get('max_block_visits', 0): self.stats['max_block_visits'] = n
             if n > self.max_block_visits: raise Stuck(f'loop bound: block {fr.block} of {fr.func.name} entered {n} times in one activation')
         while fr.idx < len(blk.stmts):
             s = blk.stmts[fr.idx]; fr.idx += 1
